@@ -205,3 +205,31 @@ func vLandsOffOrigin(s string) bool {
 	loc = strings.ReplaceAll(strings.ReplaceAll(strings.ReplaceAll(loc, "\t", ""), "\n", ""), "\r", "")
 	return vOffsiteSlashes.MatchString(loc) || vOffsiteScheme.MatchString(loc)
 }
+
+// ... and a percent-encoded request path is remembered as sent, not in its decoded form (an
+// encoded slash or space stays encoded: the decoded form names a different resource)
+// verif: unwind=6 strlen=10
+func vh_C06_chain_encoded() {
+	type tc struct{ path, raw, sent string }
+	cases := []tc{
+		{"/files/reports/2024/q1.pdf", "/files/reports%2F2024%2Fq1.pdf", "/files/reports%2F2024%2Fq1.pdf"},
+		{"/a b/c", "", "/a%20b/c"},
+		{"/q?x", "/q%3Fx", "/q%3Fx"},
+		{"/plain/path", "", "/plain/path"},
+	}
+	c := cases[ndChoice("encoded-path", len(cases))]
+	query := ndString("query")
+	verifAssume(vPlainQuery.MatchString(query))
+	v := NewValidator(nil)
+	d := NewAppDirector(AppDirectorOpts{ProxyPrefix: "/oauth2", Validator: v})
+	req := &http.Request{Method: "GET", Host: "app.example", URL: &url.URL{Path: c.path, RawPath: c.raw, RawQuery: query}, Header: http.Header{}, Form: url.Values{}}
+	req = middlewareapi.AddRequestScope(req, &middlewareapi.RequestScope{})
+	got, err := d.GetRedirect(req)
+	want := c.sent
+	if query != "" {
+		want += "?" + query
+	}
+	verifAssert("C06.encoded.no-error", err == nil)
+	verifAssert("C06.encoded.remembered-as-sent", got == want)
+	verifReach("end")
+}
